@@ -1,8 +1,25 @@
 package efivarfs
 
 import (
+	"crypto"
+	"io"
+
 	"github.com/foxboron/go-uefi/internal/vsym"
 )
+
+// vRecSigner records whether the wrapped signer failed.
+type vRecSigner struct {
+	crypto.Signer
+	failed bool
+}
+
+func (s *vRecSigner) Sign(r io.Reader, digest []byte, opts crypto.SignerOpts) ([]byte, error) {
+	sig, err := s.Signer.Sign(r, digest, opts)
+	if err != nil {
+		s.failed = true
+	}
+	return sig, err
+}
 
 // Fault positions and short counts are symbolic (vsym.Bool / vsym.Int inside the recording file
 // system), so every position of the dependency-call sequence is explored by forking.
@@ -39,6 +56,37 @@ func VC15_ReadFaults() {
 		vsym.Assert(err != nil, "a failed open, stat or read is reported as an error")
 		vsym.Assert(!sink.called, "no value is decoded after a failed read")
 		vsym.Reach("faulted")
+	}
+	vsym.Reach("end")
+}
+
+// VC15_SignedUpdateFaults: signer and file-system faults during a signed update.  A failed signing
+// writes nothing; any fault yields an error.
+func VC15_SignedUpdateFaults() {
+	vsym.EnableFaults()
+	efs, rec := vNewFS()
+	rec.faults = true
+	fs := &Efivarfs{efs}
+	v, _ := vSymVar()
+	val := vsym.Bytes("value", 8)
+	val = val[:vsym.Concrete(len(val), 64)]
+	signer := vsym.Signer("k1")
+	serial := vsym.BytesN("serial", 2)
+	vsym.Assume(serial[0] != 0)
+	cert := vsym.Cert(signer, vsym.BytesN("cert.raw", 5), vsym.BytesN("issuer", 3), serial)
+	rs := &vRecSigner{Signer: signer}
+	err := fs.WriteSignedUpdate(v, vValue(val), rs, cert)
+	if rs.failed {
+		vsym.Assert(err != nil, "a failed signer is reported as an error")
+		vsym.Assert(len(rec.trace) == 0, "a failed signing writes nothing")
+		vsym.Reach("signer-failed")
+	}
+	if err == nil {
+		vsym.Assert(rec.nfault == 0, "success is reported only when no file-system step failed")
+		vsym.Assert(len(rec.trace) >= 2, "a successful update opened and wrote the variable")
+		vsym.Reach("ok")
+	} else if len(rec.trace) == 0 {
+		vsym.Reach("nothing-written")
 	}
 	vsym.Reach("end")
 }
